@@ -213,7 +213,7 @@ func buildCached(text string) (*xsel.Grammar, error) {
 	if g, ok := exprCache[text]; ok {
 		return g, exprErr[text]
 	}
-	if len(exprCache) > 200000 {
+	if len(exprCache) > 4000 { // a compiled expression holds its whole parse forest: keep the cache small
 		exprCache = map[string]*xsel.Grammar{}
 		exprErr = map[string]error{}
 	}
